@@ -65,7 +65,7 @@ prop("C34", kind="sim", quick_runs=3000, thorough_s=600,
           "(target list over every key type of the corpus, key pool of 2-4 tuples, operation mix and fault mode drawn from the seed), checked after "
           "every call against a key-tuple -> element-identity map model; distinct = distinct (target, operation/result trace) hashes; "
           "non-trivial = the history changed the list at least once",
-     fault_kinds=["duplicate_key", "nil_key", "rename_onto_existing", "rename_from_absent", "delete_absent", "nil_receiver"],
+     fault_kinds=["duplicate_key", "nil_key", "rename_onto_existing", "rename_from_absent", "rename_to_unset_key_part", "delete_absent", "nil_receiver"],
      probes=["state_changes", "renames", "getorcreate_existing"])
 
 
@@ -86,7 +86,7 @@ prop("C10", kind="sim", quick_runs=4000, thorough_s=600,
           "by the harness's own encoders from a type-correct generated value; after each successful set the walker's leaf set must differ from the previous "
           "one only in the target leaf and in key leaves of entries created on the way, and GetNode must return exactly one node holding the value in the "
           "leaf's Go type; distinct = distinct (package, per-step outcome trace) hashes; non-trivial = at least one set succeeded",
-     fault_kinds=["failing_set", "bad:illtyped", "bad:unknown-path", "bad:missing-key"],
+     fault_kinds=["failing_set", "bad:illtyped", "bad:unknown-path", "bad:missing-key", "bad:int-overflow"],
      probes=["set_ok", "set_ok:tv", "set_ok:json", "set_created_entry", "set_ok:json_tolerance", "set_ok:leaf-list", "set_ok:shadow-path",
              "set_ok:keyclass:stringkey", "set_ok:keyclass:uint32key", "set_ok:keyclass:int64key", "set_ok:keyclass:enumkey", "set_ok:keyclass:unionkey",
              "set_ok:keyclass:boolkey", "set_ok:keyclass:multikey",
@@ -111,7 +111,7 @@ prop("C13", kind="sim", quick_runs=4000, thorough_s=600,
      assumptions=["payload domain: schema-conforming subtrees generated by the harness; key leaves are not deleted on their own; shadow paths are not used in requests"])
 
 
-prop("C03", kind="sim", quick_runs=3000, thorough_s=900,
+prop("C03", kind="sim", quick_runs=2400, thorough_s=900,
      rule="one run = one seeded tree v0, a replica built as an independent copy, and a history of 1-4 (thorough: up to 8) steps; each step edits the primary "
           "(seeded batch of leaf sets/changes/deletes, list entry adds/removes, union member changes, ordered-list reorders) and applies Diff or "
           "DiffWithAtomic (plain, MapToSinglePath, PreferShadowPath, IgnoreAdditions) of (vi, vi+1) to the replica with UnmarshalNotifications, under a "
@@ -146,10 +146,10 @@ prop("C21", kind="race", quick_runs=320, thorough_s=900, race=True, workers=8,
           "lock operation of ygot's runtime packages and of the generated code), each with 2-5 (thorough: up to 9) operations: read-only operations on one "
           "shared tree (Validate, EmitJSON, Marshal7951, ConstructIETFJSON, TogNMINotifications, GetNode, Diff, DiffWithAtomic, DeepCopy, EncodeTypedValue) "
           "and/or Unmarshal / SetNode / UnmarshalSetRequest histories into private trees sharing one schema and one pool of input messages, with regexp-cache "
-          "evictions and failing operations mixed in; each task list is first run alone (reference), then all interleaved; oracles: race detector (scheduler "
+          "evictions and failing operations mixed in; each task list is first run alone (reference), then - after a simulated process restart - all interleaved; oracles: race detector (scheduler "
           "hand-offs are hidden from it), results identical to the solo run, termination; distinct = distinct (package, schedule hash, result trace); "
           "non-trivial = at least one preemption or lock-contention switch happened, i.e. tasks really overlapped",
-     fault_kinds=["preemption", "lock_contention_switch", "starvation_window", "cache_eviction", "failing_operation"],
+     fault_kinds=["preemption", "lock_contention_switch", "starvation_window", "cache_eviction", "failing_operation", "process_restart"],
      probes=["tasks_overlapped", "lock_observed_held_at_switch", "workload:readers", "workload:writers", "workload:mixed", "race_mode_runs", "interleaving_mode_runs"],
      assumptions=["yield points are source-level: preemption inside un-instrumented dependencies (protobuf, regexp, encoding/json) is not explored, though races inside them are still seen because the whole binary is race-instrumented",
                   "the race detector keeps a bounded access history per memory word, so a race whose first access is very old can be missed",
